@@ -3,7 +3,7 @@
     0,1 models · 2,3,4 components (3 and 4 identical) · 5,6,7 variables (6 and 7 identical) · 8,9 units (identical)
     · 10,11 resets (identical);  99 = null pointer
   `(heap OP*)`, OP = (ac c x) (am m x) (av c x) (ar c x) (au m x) (ri c K i) (rp c K x) (rn c K #name) (ra c K)
-                     (ae v w) (re v w) (rae v) (rc c i x) (ru m i x) (rel v)          K = comp|var|reset|units
+                     (ae v w) (re v w) (rae v) (rc c i x) (ru m i x) (rel v) (cl x)          K = comp|var|reset|units
   → `(r (<result> <graph dump>)*)`
 -/
 import Cellml.Heap.Model
@@ -87,6 +87,10 @@ def opStep (h : Heap) : Sexp → Option (Heap × Bool)
     let v ← nat v; let w ← nat w
     pure (if okObj v && okObj w then removeEquivalence h v w else (h, false))
   | .list [.atom "rae", v] => do pure (removeAllEquivalences h (← nat v), true)
+  | .list [.atom "cl", x] => do
+    -- clone() of a model or component: a fresh object graph, the heap is untouched
+    let x ← nat x
+    pure (h, decide (x < 5))
   | .list [.atom "rel", v] => do
     -- outside the invariant (a history that re-added a child) a component may still list a variable whose parent pointer
     -- is empty; such a variable is still owned and is not released
